@@ -4,12 +4,15 @@
 //          and/or a digit 2..3 (depth: the child repeats the same kind below itself):
 //            p plain   i ignores every catchable signal   d double-fork daemon (intermediate exits)
 //            s setsid  g own process group                 o ignores SIGHUP/SIGTERM and outlives the parent
+//            u created with clone(CLONE_UNTRACED) (a tracer does not get it attached)
 //          "-" = no children
 //   THEN:  pause | exit:N | kill:SIG | wait (block reading stdin; exits 0 at EOF)
 //   When the whole tree is up the root writes "READY <number of live descendants>\n" to OUTFD (default: none).
 // Every process of the tree keeps the argv of the root (no exec), so a scan for NONCE finds them all.
 #define _GNU_SOURCE
 #include <errno.h>
+#include <sched.h>
+#include <sys/syscall.h>
 #include <signal.h>
 #include <stdio.h>
 #include <stdlib.h>
@@ -34,7 +37,8 @@ static void settle_forever(void) {
 }
 
 static void node(char kind, int depth, int plus) {
-  pid_t p = fork();
+  // 'u': the child is created with CLONE_UNTRACED, which a tracer's PTRACE_O_TRACEFORK/CLONE cannot override
+  pid_t p = kind == 'u' ? (pid_t)syscall(SYS_clone, CLONE_UNTRACED | SIGCHLD, 0, 0, 0, 0) : fork();
   if (p != 0) return;
   // child
   switch (kind) {
